@@ -110,6 +110,14 @@ def error_return(node: ast.AST) -> bool:
         name = v.func.attr if isinstance(v.func, ast.Attribute) else v.func.id
         if "error" in name.lower() or name in _ERROR_HELPERS:
             return True
+        # a local bound once to functools.partial(<error helper>, ...)
+        fn = _CURRENT_FN[0]
+        if isinstance(v.func, ast.Name) and fn is not None:
+            ds = [a.value for a in walk_no_nested(fn) if isinstance(a, ast.Assign) and len(a.targets) == 1 and isinstance(a.targets[0], ast.Name) and a.targets[0].id == name]
+            if len(ds) == 1 and isinstance(ds[0], ast.Call) and ast.unparse(ds[0].func).split(".")[-1] == "partial" and ds[0].args and isinstance(ds[0].args[0], (ast.Name, ast.Attribute)):
+                inner = ds[0].args[0].id if isinstance(ds[0].args[0], ast.Name) else ds[0].args[0].attr
+                if "error" in inner.lower() or inner in _ERROR_HELPERS:
+                    return True
     if isinstance(v, ast.Name) and v.id in _ERROR_VARS.get(_CURRENT_FUNC[0], set()):
         return True
     if isinstance(v, ast.Name) and v.id in err_names(_CURRENT_FN[0]):
